@@ -659,8 +659,8 @@ def _const_ok(node, depth=0):
         return _const_ok(node.left, depth + 1) and _const_ok(node.right, depth + 1)
     if isinstance(node, ast.UnaryOp):
         return _const_ok(node.operand, depth + 1)
-    if isinstance(node, ast.Call) and isinstance(node.func, ast.Name) and node.func.id in ("frozenset", "tuple", "set", "list", "dict") and \
-            not node.keywords and len(node.args) <= 1:
+    if isinstance(node, ast.Call) and isinstance(node.func, ast.Name) and node.func.id in ("frozenset", "tuple", "set", "list", "dict", "len", "int", "bytes", "str", "max", "min") and \
+            not node.keywords and len(node.args) <= 2:
         return all(_const_ok(a, depth + 1) for a in node.args)
     return False
 
@@ -686,7 +686,32 @@ _PURE_CONSUMERS = {"len", "sorted", "tuple", "frozenset", "set", "list", "dict",
 _READ_METHODS = {"get", "keys", "items", "values", "index", "count", "copy", "union", "intersection", "issubset", "issuperset", "join", "format", "startswith", "endswith", "lower", "upper"}
 
 
-def _escapes(tree, name):
+def _param_read_only(g, pname):
+    """The callee only reads its parameter: iterates it, indexes it, tests membership, takes its length."""
+    parents = {}
+    for n in ast.walk(g.node):
+        for c in ast.iter_child_nodes(n):
+            parents[c] = n
+    for n in ast.walk(g.node):
+        if isinstance(n, ast.Name) and n.id == pname:
+            if not isinstance(n.ctx, ast.Load):
+                return False
+            p = parents.get(n)
+            if isinstance(p, ast.Subscript) and p.value is n and isinstance(p.ctx, ast.Load):
+                continue
+            if isinstance(p, ast.Compare) and n in p.comparators:
+                continue
+            if isinstance(p, (ast.For, ast.AsyncFor, ast.comprehension)) and p.iter is n:
+                continue
+            if isinstance(p, ast.Call) and isinstance(p.func, ast.Name) and p.func.id in _PURE_CONSUMERS and n in p.args:
+                continue
+            if isinstance(p, ast.Attribute) and p.value is n and p.attr in _READ_METHODS and isinstance(parents.get(p), ast.Call) and parents[p].func is p:
+                continue
+            return False
+    return True
+
+
+def _escapes(tree, name, repo=None, module=None):
     """Can the object bound to module-level `name` be reached through another reference (stored, returned, passed on)?
     A mutable display may only be propagated into its uses when it cannot: otherwise two users that share ONE object
     would each be given a fresh copy and an aliasing defect would disappear from the analysed program."""
@@ -711,6 +736,21 @@ def _escapes(tree, name):
             continue
         if isinstance(p, ast.Starred):
             continue
+        if isinstance(p, ast.Call) and n in p.args and repo is not None and module is not None:
+            # handed to a project function that only reads the corresponding parameter
+            g = None
+            try:
+                r = repo.resolve_dotted(module, dotted(p.func) or "")
+                g = r[1] if r and r[0] == "func" else None
+            except Exception:
+                g = None
+            if g is not None:
+                params = list(g.params)
+                if g.cls is not None and params and params[0] in ("self", "cls") and not any("staticmethod" in d for d in g.decorators):
+                    params = params[1:]
+                i = p.args.index(n)
+                if i < len(params) and _param_read_only(g, params[i]):
+                    continue
         return True
     return False
 
@@ -735,8 +775,8 @@ def unknown_constants(repo, known):
         for nm, v in m.globals.items():
             if nm in kg or counts.get(nm, 0) != 1 or not _const_ok(v):
                 continue
-            immutable = isinstance(v, (ast.Constant, ast.Tuple, ast.Name, ast.Attribute, ast.BinOp, ast.UnaryOp)) or (isinstance(v, ast.Call) and getattr(v.func, 'id', '') in ('frozenset', 'tuple'))
-            if not immutable and (_mutated(m.tree, nm) or any(_escapes(m2.tree, nm) for m2 in repo.modules.values() if m2 is m or nm in m2.imports)):
+            immutable = isinstance(v, (ast.Constant, ast.Tuple, ast.Name, ast.Attribute, ast.BinOp, ast.UnaryOp)) or (isinstance(v, ast.Call) and getattr(v.func, 'id', '') in ('frozenset', 'tuple', 'len', 'int', 'bytes', 'str', 'max', 'min'))
+            if not immutable and (_mutated(m.tree, nm) or any(_escapes(m2.tree, nm, repo=repo, module=m2) for m2 in repo.modules.values() if m2 is m or nm in m2.imports)):
                 continue
             cands[nm] = v
         if cands:
